@@ -43,3 +43,8 @@ chk("C19", "exploration",
     "the wrapper generator's own displacement bookkeeping; blank-line units are column-independent; documents with C06-risky features (escapes, blank lines inside folded scalars, indentation indicators) are left to C06",
     "relational (metamorphic) monitor over in-process parser executions",
     "DESIGN.md §3 C19")
+chk("C15", "fault_enumeration",
+    "fault table over the real failover group (built through config.Load and the Prometheus generator) against scripted HTTP fault servers: 9 fault modes x up to 3 upstreams x 6 API calls, 10 online checks and two concurrent targets; a reference automaton over request logs, answer tokens, returned errors and problems decides each cell; the harness runs under the Go race detector in child processes. Thorough enumerates all 819 assignments (exhaustive), quick all 1- and 2-upstream assignments plus a seed-chosen tenth of the 3-upstream ones.",
+    "fault servers and their request logs; class table from DESIGN.md (404 on config/flags/metadata and truncated bodies are don't-care for stop-or-continue); for closed ports and abandoned timeouts only positive contact evidence is used; TLS/proxy faults not injected",
+    "runtime monitoring: fault-table enumeration with a reference automaton over request logs + Go race detector",
+    "DESIGN.md §3 C15")
